@@ -325,4 +325,23 @@ def View.checkSum (v : View) : Nat :=
   let c := c % 65536
   (c + v.b.size) % 4294967296
 
+/-! ### `SectionHeaders::by_name` on the query bytes -/
+
+/-- `let mut name_buf = [0u8; IMAGE_SIZEOF_SHORT_NAME]; for i in 0..name.len() { name_buf[i] = name[i]; }`
+(the caller has checked `name.len() <= 8`, so no index is out of range) -/
+-- src: wrap/sections.rs:SectionHeaders::by_name (the copy loop)
+def nameBuf (n : Bytes) : Bytes :=
+  (List.range n.size).foldl (fun buf i => buf.setIfInBounds i (n.getD i 0)) (Array.replicate 8 0)
+
+/-- index of the section found by `by_name(name)`, `none` = `None` -/
+-- src: wrap/sections.rs:SectionHeaders::by_name
+def byNameBytes (secs : List Sec) (n : Bytes) : Option Nat :=
+  -- `if name.len() > IMAGE_SIZEOF_SHORT_NAME { return None; }`
+  if n.size > 8 then none
+  else
+    let buf := nameBuf n
+    -- `for sect in self.iter() { if sect.0.Name == name_buf { return Some(sect); } }`: the 8 bytes of
+    -- `Name` are kept as two little-endian halves in `Sec`
+    byName secs (le32 buf 0) (le32 buf 4)
+
 end Pelite.Pe
